@@ -14,4 +14,23 @@ CLAIMS = {
         "design_ref": "§5 C30",
     },
 }
+CLAIMS["C04"] = {
+    "engine": "sched",
+    "level": "model_checking",
+    "text": "Schedule.tla models the run-level machine (reset, segmented primal loop with checkpoint capture, reverse loop = checkpoint select / backward / VJP-forward, partial runs). TLC checks NoNegativeTime, VjpOnceDescending, CheckpointsAtBoundaries, DriftBounded, SlicePartition for every T, checkpoint count and method in the bound and rejects the pre-fix loop condition (>= 0) as a negative instance. Real jax.vjp(run_fdtd) executions (reversible with K checkpoints and checkpointed autodiff) on scenes with periodic/PEC/PMC/PML faces, lossy slabs with K=T-1, random detector cotangents are observed through the step hooks; TLC validates every forward/backward/checkpoint-select event against the Schedule actions (Trace_Schedule) and asserts the measured gradient difference outside the absorbing layers <= 1e-6 relative.",
+    "note": "Gradient oracle = JAX autodiff through the checkpointed loop (trusted). Gradient difference is computed by the harness (numpy) and bounded by the trace spec. Scenes are seeded samples, not exhaustive.",
+    "technique": "TLA+ schedule spec + TLC; trace validation of hook events from real reversible/checkpointed VJP runs; gradient cross-check",
+    "design_ref": "§5 C04",
+}
+CLAIMS["C05"] = {
+    "engine": "sched",
+    "level": "model_checking",
+    "text": "ScheduleDefs.tla defines the slice boundaries (round-half-even) and IsPartition; Schedule.tla shows for every T<=6/14, K, method that a returned full run executed exactly steps 0..T-1 (ExecutedIsPrefix, FullRunExecutesAll) and SlicePartition. The real _reversible_slice_boundaries is checked by TLC (Trace_Slices) exhaustively for 1<=k<=T<=40 (quick) / 90 (thorough). Real run_fdtd executions of the same scene under no gradient config, checkpointed (1,3,T checkpoints) and reversible (0..T-1 checkpoints) are validated event by event against Schedule (Trace_Schedule), and their final step count, field and detector fingerprints must agree (clause 'state differs from another run that executed the same steps').",
+    "note": "Final states are compared through fixed pseudo-random linear functionals of E, H and all detector arrays (relative 5e-8), not element-wise. Scenes and T values are a fixed small family.",
+    "technique": "TLA+ schedule spec + TLC; exhaustive slice-partition conformance; trace validation of real runs under every gradient strategy",
+    "design_ref": "§5 C05",
+}
 NOT_APPLICABLE = {}
+
+# claim files (checks/Cxx.claim.json) written by builders are merged only after review by the coordinator
+ACCEPTED = []
